@@ -32,6 +32,10 @@ func builtInCallProp(
 		return evalPanFuncCall(f, env, kwargs, argsToPass...)
 	case *object.PanBuiltIn:
 		return f.Fn(env, kwargs, argsToPass...)
+	case *object.PanErr:
+		// NOTE: copy err object, otherwise stacktrace of the shared object is overwritten
+		copied := *f
+		return &copied
 	default:
 		// not callable
 		return ret
